@@ -37,6 +37,7 @@ SUBJ = {
  "F43": "an empty plain YAML scalar was loaded as the empty string",
  "F44": "a map with the same key twice was loaded with inconsistent contents",
  "F40": "captured map keys were recorded again every time",
+ "F52": "plain validate exited 0 when a rules file could not be read",
  "F31": "`test` listed the rules of a test case in a different order",
 }
 log = subprocess.run(["git", "-C", "/repo", "log", "--format=%h %s"], capture_output=True, text=True).stdout.splitlines()
